@@ -10,6 +10,7 @@
 -/
 import GojaModel.C05.Lemmas
 import GojaModel.C05.StrLemmas
+import GojaModel.C05.StrAgree
 import GojaModel.C05.ParseInt
 
 namespace GojaModel.C05.Props
@@ -218,6 +219,16 @@ theorem trim_correct (s : List Nat) :
 
 /-- U+0085 (NEL, trimmed by Go's `strings.TrimSpace` before e80e384) is not trimmed. -/
 theorem nel_not_trimmed : StrNum.isTrimChar 0x85 = false := by decide
+
+/-- **StringToNumber, full statement: for EVERY string goja's decisions — trim with `parser.WhitespaceChars`, the
+Infinity forms, `stringToInt` (radix prefix, sign rules, int64 range, "-0…"), `_toFloat` ("-0", underscore, big radix
+literal, hex-float rejection, `strconv.ParseFloat`'s specials and decimal grammar) — yield exactly what ECMA-262
+StringToNumber yields (strip StrWhiteSpace, StrNumericLiteral): same NaN-ness, same sign, same exact decimal
+value.** -/
+theorem strToNum_mech_eq_spec (s : List Nat) : StrNum.mech s = StrNum.spec s := StrNum.mech_eq_spec s
+
+/-- the same on an already trimmed string -/
+theorem strToNum_mechT_eq_specT (t : List Nat) : StrNum.mechT t = StrNum.specT t := StrNum.mechT_eq_specT t
 
 /-- (`mechT`/`specT` are the decisions on the TRIMMED string; `mech = mechT ∘ trim`.)
 A sign after a radix prefix is never accepted (d6061d6): for every base letter, sign and rest. -/
